@@ -171,10 +171,12 @@ impl<S> Map<S> {
 
     pub(crate) fn begin_group(&mut self) {
         self.commands.begin_group();
+        self.active_char.begin_group();
     }
 
     pub(crate) fn end_group(&mut self) -> std::result::Result<(), groupingmap::NoGroupToEndError> {
         self.commands.end_group()?;
+        self.active_char.end_group()?;
         Ok(())
     }
 
@@ -341,9 +343,17 @@ impl<'a> SerializableMap<'a> {
             .map(std::borrow::Cow::into_owned)
             .map(Rc::new)
             .collect();
+        // Active characters are not serialized (TODO), but the container must have
+        // the same number of open groups as the control sequences container.
+        let mut active_char: GroupingHashMap<char, Command<S>> = Default::default();
         let commands: GroupingVec<Command<S>> = self
             .commands
             .iter_all()
+            .inspect(|item| {
+                if let groupingmap::Item::BeginGroup = item {
+                    active_char.begin_group();
+                }
+            })
             .map(groupingmap::Item::adapt_map(
                 |(cs_name, serialized_command): (token::CsName, &SerializableCommand)| {
                     let command = match serialized_command {
@@ -385,7 +395,7 @@ impl<'a> SerializableMap<'a> {
             .collect();
         Map {
             commands,
-            active_char: Default::default(), // TODO
+            active_char,
             built_in_commands,
             primitive_key_to_built_in_lazy: Default::default(),
             getters_key_to_built_in_lazy: Default::default(),
